@@ -304,14 +304,19 @@ pub fn c16(cx: &Ctx) -> (Vec<Violation>, Cover) {
             }
             E::Remove(ci) => {
                 let c = &a.cmds[ci];
-                let RAct::EwRemove { inst, ent, ref bundle, .. } = c.act else { continue };
+                let RAct::EwRemove { inst, ref ents, ref bundle, .. } = c.act else { continue };
                 cov.count("ew_removes", 1);
-                let remaining = a.regs.iter().filter(|r| r.inst == inst && r.trig.entity() == Some(ent) && r.live_at(pos + 1)).count();
-                if remaining == 0 {
-                    model.remove(&(inst, ent));
-                } else if bundle.len() == 1 {
-                    cov.nontrivial = true;
-                    cov.count("ew_partial_removals_keeping_data", 1);
+                if ents.len() >= 2 {
+                    cov.count("ew_removes_naming_two_entities", 1);
+                }
+                for ent in ents.iter().copied() {
+                    let remaining = a.regs.iter().filter(|r| r.inst == inst && r.trig.entity() == Some(ent) && r.live_at(pos + 1)).count();
+                    if remaining == 0 {
+                        model.remove(&(inst, ent));
+                    } else if bundle.len() == 1 {
+                        cov.nontrivial = true;
+                        cov.count("ew_partial_removals_keeping_data", 1);
+                    }
                 }
             }
             E::Death(di) => {
@@ -358,7 +363,7 @@ pub fn c16(cx: &Ctx) -> (Vec<Violation>, Cover) {
                         let class = match (cause_pos, src) {
                             (Some(cp), Some(e)) => {
                                 let removed = a.cmds.iter().any(|c| {
-                                    matches!(&c.act, RAct::EwRemove { inst, ent, .. } if *inst == r.inst && *ent == e)
+                                    matches!(&c.act, RAct::EwRemove { inst, ents, .. } if *inst == r.inst && ents.contains(&e))
                                         && c.post.map(|p| p > cp && p < r.pos).unwrap_or(false)
                                 });
                                 let died = a.deaths.iter().any(|d| d.ent == e && d.pos > cp && d.pos < r.pos);
